@@ -222,6 +222,19 @@ def jitter_enum(args):
     return dict(n=execs, viol=viol, consulted=consulted, outcomes=len(outs), states={(json.dumps(arrs), delta, o) for o in outs})
 
 
+def jitter_big(args):
+    """n pipelines one tick apart at 100000 ticks/s (all within one delta of each other), some with several operators"""
+    n, delta, seed = args
+    arrs = [(repr(k / 100000.0), 2 if k % 97 == 0 else 1) for k in range(n)]
+    text = jitter_text(arrs)
+    out = run_tool(tools.jitter_command, text, delta, seed=seed)
+    what = dict(pipelines=n, delta=delta, seed=seed, what="jitter-scale")
+    viol = judge_jitter(text, out, delta, what)
+    seen = set()
+    viol = [v for v in viol if not (v[0] in seen or seen.add(v[0]))][:6]
+    return dict(n=1, viol=viol, states={("big", n, delta)})
+
+
 def jitter_seeds(args):
     seed, delta = args
     arrs = [("0.0", 2), ("0.0", 1), ("0.05", 3), ("0.05", 1), ("0.3", 1), ("1.0", 2), ("1.02", 1), ("7", 1)]
@@ -394,6 +407,16 @@ def main(tier, seed):
                 continue
             rep.add_violations([Violation("jitter-seeds", kind, d, sc, [], family="jitter")])
     rep.part("jitter-seeds", seeds=len(res) // 2)
+    # long and dense traces (sizes follow the constants of tools.py, see mc/scale.py): many pipelines within one delta
+    from .. import scale as _scale
+    nbig, sinfo = _scale.size(["tools.py", "workload/csv_io"], 300, 60000)
+    res = pmap(jitter_big, [(nbig, 0.2, seed), (nbig, 0.0, seed), (max(50, nbig // 7), 0.05, seed + 1)], chunks=1)
+    for r in res:
+        rep.cov["evaluations"] += r["n"]
+        rep.add_states(r["states"])
+        for kind, d, sc in r["viol"]:
+            rep.add_violations([Violation("jitter-scale", kind, d, sc, [], family="jitter-big")])
+    rep.part("jitter-scale", pipelines=nbig, sizing=sinfo)
     res = pmap(jitter_hashseeds, [(seed + 7, 0.1), (seed + 8, 0.25)], chunks=1)
     for r in res:
         rep.cov["evaluations"] += r["n"]
@@ -428,6 +451,11 @@ def replay(rec):
         bad = abs(dval(a) - grid) > Fr(1, 10**9) or abs(dval(b) - dval(a)) > Fr(1, 10**9)
         return 1 if bad else 0
     print(json.dumps(sc))
+    if fam == "jitter-big":
+        r = jitter_big((sc["pipelines"], sc["delta"], sc["seed"]))
+        for v in r["viol"]:
+            print("PROBLEM", v[:2])
+        return 1 if r["viol"] else 0
     if fam == "sample":
         r = sample_seeds(sc["start_seed"])
         for v in r["viol"]:
